@@ -12,6 +12,10 @@ from .ref import Ref
 NUMPY_MACHINE_IDS = 7
 
 
+class DispatchLeftHalfDone(Exception):
+    """a dispatch that failed (a warning turned into an error) changed part of the state"""
+
+
 class Run:
     """A real instance + dispatcher driven side by side with a Ref."""
 
@@ -99,6 +103,24 @@ class Run:
         return o, m
 
     def dispatch(self, oid, m, explicit_machine=True):
+        try:
+            return self._dispatch(oid, m, explicit_machine)
+        except Warning as w:
+            # (ambient lane: the user's warning policy turned a warning of the library into an
+            # error) the request either took effect completely or not at all
+            op = self.ops[oid]
+            placed = any(so.operation is op for lst in self.d.schedule.schedule for so in lst)
+            if placed and oid not in self.r.start:
+                self.r.apply(oid, m)
+            got = (list(self.d.machine_next_available_time), list(self.d.job_next_available_time),
+                   list(self.d.job_next_operation_index))
+            want = (list(self.r.machine_end), list(self.r.job_end), list(self.r.job_next))
+            if got != want:
+                raise DispatchLeftHalfDone(
+                    f"a dispatch interrupted by {type(w).__name__}({str(w)[:80]!r}) left the dispatcher half "
+                    f"updated: operation in the schedule: {placed}; tracking {got}, consistent state {want}")
+
+    def _dispatch(self, oid, m, explicit_machine=True):
         op = self.ops[oid]
         if explicit_machine or len(self.r.op_machines[oid]) > 1:
             if NUMPY_MACHINE_IDS and (oid + len(self.r.history)) % NUMPY_MACHINE_IDS == 3:
